@@ -86,6 +86,12 @@ func driverMsgReplay(c *Ctx) {
 		}
 		for _, s := range steps {
 			o := s.Op
+			if o.K != "New" && o.ID > len(modelToPool) {
+				// the real code refused an operation the model performs (already recorded as a "refused"
+				// step, which the specification rejects): the rest of this behaviour has no object to act on
+				c.count("msgreplay.abandoned")
+				break
+			}
 			pool := func(id int) int { return modelToPool[id-1] }
 			switch o.K {
 			case "New":
